@@ -92,6 +92,14 @@ class Rec:
         return f"<{self.kind} {sorted(self.fields)}>"
 
 
+class Lst:
+    """a list filled by `append`: the items appended at the nesting depth it was created at, or one item per pass of one symbolic loop
+    (then it reads like the comprehension `[elt for i in range(n)]`)"""
+
+    def __init__(self, loops):
+        self.items, self.loops, self.fam, self.broken, self.comp = [], loops, None, None, None
+
+
 class Closure:
     def __init__(self, node, env, frame=None):
         self.node, self.env, self.frame = node, env, frame
@@ -261,6 +269,11 @@ def always_ends(stmts):
     return False
 
 
+def _empty_list(node):
+    return (isinstance(node, ast.List) and not node.elts) or (isinstance(node, ast.Call) and isinstance(node.func, ast.Name) and node.func.id == "list"
+                                                             and not node.args and not node.keywords)
+
+
 def _has_return(stmts):
     """a `return` somewhere in the statements (not inside a nested function)"""
     stack = list(stmts)
@@ -302,6 +315,35 @@ def raw_funcs(ctx, rel, exclude=()):
     return {q: f for q, f in raw_module(ctx, rel).funcs.items() if "." not in q and "#" not in q and q not in exclude}
 
 
+SHORT = {"numpy": "np", "scipy.linalg": "la", "numpy.linalg": "np.linalg", "pyyeti.ode": "ode", "pyyeti.cb": "cb", "pyyeti.locate": "locate", "math": "math",
+         "types.SimpleNamespace": "SimpleNamespace"}
+
+
+def module_imports(ctx, rel):
+    """{local name: the spelling the tables of this engine use} for the imports of the module: whatever alias a module gives to numpy,
+    scipy.linalg, pyyeti.ode ... a call is known by what it calls (`sla.solve`, `from scipy.linalg import solve`, `NS = SimpleNamespace`)"""
+    out = {}
+    for st in raw_module(ctx, rel).tree.body:
+        if isinstance(st, ast.Import):
+            for a in st.names:
+                if a.asname:
+                    out[a.asname] = a.name
+        elif isinstance(st, ast.ImportFrom) and st.module and not st.level:
+            for a in st.names:
+                out[a.asname or a.name] = f"{st.module}.{a.name}"
+    res = {}
+    for local, full in out.items():
+        best = None
+        for mod, short in SHORT.items():
+            if full == mod or full.startswith(mod + "."):
+                if best is None or len(mod) > len(best[0]):
+                    best = (mod, short)
+        canon = best[1] + full[len(best[0]):] if best else full
+        if canon != local:
+            res[local] = canon
+    return res
+
+
 def module_consts(ctx, rel):
     out = {}
     for st in raw_module(ctx, rel).tree.body:
@@ -317,6 +359,7 @@ class Interp(AutoEvaluator):
         super().__init__(None, src=ctx.src, cond=cond)
         self.ctx, self.rel = ctx, rel
         self.consts = module_consts(ctx, rel)
+        self.imports = module_imports(ctx, rel)
         self._const_cache = {}
         self.userfuncs = dict(funcs or {})
         self.sigs = {q: [x.arg for x in f.args.posonlyargs + f.args.args] for q, f in raw_funcs(ctx, rel).items()}
@@ -671,6 +714,8 @@ class Interp(AutoEvaluator):
         if isinstance(node, ast.Name):
             if node.id in self.env:
                 v = self.env[node.id]
+                if isinstance(v, Lst):
+                    return self._lst_value(v)
                 return v if self.as_base else self._deref(v)
             if node.id in self.consts:
                 return self._const(node.id)
@@ -680,7 +725,13 @@ class Interp(AutoEvaluator):
         if isinstance(node, ast.Subscript):
             base = self._base(node.value)
             if isinstance(base, Rec):
-                k = str_const(self._ev(node.slice))
+                kv = self.ev(node.slice)
+                k = str_const(kv) if is_rat(kv) else None
+                if k is None and const_int(kv) is not None:
+                    k = f"#{const_int(kv)}"
+                if k is None and set(base.fields) <= {"#0", "#1"}:
+                    c = self.decide(node.slice)                 # {True: f, False: g}[test]
+                    k = None if c is None else f"#{int(c)}"
                 if k is None or k not in base.fields:
                     return Unknown(f"record field {ast.unparse(node.slice)}")
                 return base.fields[k]
@@ -732,7 +783,16 @@ class Interp(AutoEvaluator):
         if isinstance(node, ast.Dict):
             r = Rec("dict")
             for k, v in zip(node.keys, node.values):
-                ks = str_const(self._ev(k)) if k is not None else None
+                if k is None:                                   # {**other, ...}
+                    o = self.ev(v)
+                    if not isinstance(o, Rec):
+                        return Unknown("dict display with ** of a non-record")
+                    r.fields.update(o.fields)
+                    continue
+                kv = self._ev(k)
+                ks = str_const(kv)
+                if ks is None and const_int(kv) is not None:
+                    ks = f"#{const_int(kv)}"                    # True / False / small integers as keys
                 if ks is None:
                     return Unknown("dict with computed keys")
                 r.fields[ks] = self.ev(v)
@@ -750,6 +810,37 @@ class Interp(AutoEvaluator):
             links = [cmp_value(type(op).__name__, vals[i], vals[i + 1]) for i, op in enumerate(node.ops)]
             return links[0] if len(links) == 1 else F.fn("bool:And", *links)
         return super()._ev(node)
+
+    def _lst_value(self, l):
+        if l.broken:
+            return Unknown(l.broken)
+        if l.fam is None:
+            return tuple(l.items)
+        lp, elt = l.fam
+        if lp.id in self.loop_stack:
+            return Unknown("list read while the loop that fills it is running")
+        if l.comp is None:
+            cid = len(self.comps) + 1
+            self.comps[cid] = (lp.name, lp.domain, elt)
+            l.comp = F.sym(f"comp#{cid}")
+        return l.comp
+
+    def _lst_method(self, l, meth, pos, kws):
+        cur = tuple(self.loop_stack)
+        if kws or self.maybe > self.maybe_base or l.broken:
+            l.broken = l.broken or f"{meth} under an undecided test"
+        elif meth == "append" and len(pos) == 1:
+            if cur == l.loops and l.fam is None:
+                l.items.append(pos[0])
+            elif len(cur) == len(l.loops) + 1 and cur[:-1] == l.loops and l.fam is None and not l.items and is_rat(pos[0]):
+                l.fam = (self.loops[cur[-1]], pos[0])                # one item per pass
+            else:
+                l.broken = "appends that do not form one sequence"
+        elif meth == "extend" and len(pos) == 1 and self._as_seq(pos[0]) is not None and cur == l.loops and l.fam is None:
+            l.items.extend(self._as_seq(pos[0]))
+        else:
+            l.broken = f"list method {meth}"
+        return NONE
 
     def _base(self, node):
         """value of the expression a subscript is applied to: a name bound to a view stays the view (`col = A[:, j]; col[:] = x` stores into A)"""
@@ -866,7 +957,15 @@ class Interp(AutoEvaluator):
                     return ("unroll", [(F.const(k), v) for k, v in enumerate(sp[1])])
                 return ("sym", sp[1], lambda i, f=sp[2]: (i, f(i)))
             if nm == "zip" and it.args and not it.keywords:
-                sps = [self._iter_spec(a) for a in it.args]
+                sps = []
+                for a in it.args:
+                    if isinstance(a, ast.Starred):              # zip(x, *views)
+                        seq = self._as_seq(self._ev(a.value))
+                        if seq is None:
+                            raise Unsupported(f"iteration over *{ast.unparse(a.value)[:40]}")
+                        sps.extend(self._spec_of_value(v, a) for v in seq)
+                    else:
+                        sps.append(self._iter_spec(a))
                 if all(s[0] == "unroll" for s in sps):
                     return ("unroll", [tuple(x) for x in zip(*[s[1] for s in sps])])
                 if all(s[0] == "sym" for s in sps):
@@ -874,7 +973,9 @@ class Interp(AutoEvaluator):
                     dom = sps[0][1] if all(self.known_equal(s[1], sps[0][1]) for s in sps) else F.fn("min", *sorted((s[1] for s in sps), key=repr))
                     return ("sym", dom, lambda i, fs=[s[2] for s in sps]: tuple(f(i) for f in fs))
                 raise Unsupported("zip of sequences of different kinds")
-        v = self._ev(it)
+        return self._spec_of_value(self._ev(it), it)
+
+    def _spec_of_value(self, v, it):
         seq = self._as_seq(v)
         if seq is not None:
             return ("unroll", seq)
@@ -960,6 +1061,14 @@ class Interp(AutoEvaluator):
                     name, alias_recv = "." + u_[0][5:], u_[1][0]
         elif isinstance(node.func, ast.Lambda):
             target = self._lambda(node.func)
+        elif isinstance(node.func, ast.Attribute) and isinstance(node.func.value, ast.Name) and isinstance(self.env.get(node.func.value.id), Lst):
+            l = self.env[node.func.value.id]
+            if node.func.attr in ("append", "extend", "insert", "pop", "clear", "remove", "sort", "reverse"):
+                return self._lst_method(l, node.func.attr, [self.ev(a) for a in node.args], {k.arg: None for k in node.keywords})
+        elif not isinstance(node.func, (ast.Name, ast.Attribute)):
+            fv = self.ev(node.func)                             # {True: f, False: g}[test](), table[key](...)
+            if isinstance(fv, Closure):
+                target = fv
         def arg(x):
             # a function of this module / a closure receives references: a view stays a view (it is read when the callee reads it)
             if target is None:
@@ -1001,6 +1110,10 @@ class Interp(AutoEvaluator):
                     return Unknown("attribute of a function")
         elif name is None:
             return Unknown("call of a computed callable")
+        if name and recv is None and not name.startswith("."):
+            head, _, tail = name.partition(".")
+            if head in self.imports and head not in self.env:
+                name = self.imports[head] + ("." + tail if tail else "")        # the module's own alias -> the spelling of the tables
         if name in self.sigs and kws and "**" not in kws:
             # keywords of a function of this module are put in the order of its signature: f(x, freq=w) is f(x, w)
             params = self.sigs[name]
@@ -1136,6 +1249,10 @@ class Interp(AutoEvaluator):
                 return pos[1] if len(pos) > 1 else NONE
             if name == ".copy" and not pos:
                 return Rec("dict", recv.fields)
+        if name == "dict.fromkeys" and 1 <= len(pos) <= 2 and not kws and self._as_seq(pos[0]) is not None:
+            keys = [str_const(x) if is_rat(x) else None for x in self._as_seq(pos[0])]
+            if all(k is not None for k in keys):
+                return Rec("dict", {k: (pos[1] if len(pos) == 2 else NONE) for k in keys})
         if name == "vars" and len(pos) == 1 and isinstance(pos[0], Rec):
             return pos[0]
         if recv is not None and name == ".update" and isinstance(recv, Rec):
@@ -1273,10 +1390,10 @@ class Interp(AutoEvaluator):
         if self.depth >= MAX_DEPTH:
             raise Unsupported(f"call depth at {fn.name}")
         a = fn.args
-        if a.vararg or a.kwarg or "**" in kws:
-            return Unknown(f"variadic call of {fn.name}")
+        if "**" in kws:
+            return Unknown(f"call of {fn.name} with ** of a non-record")
         params = [x.arg for x in a.posonlyargs + a.args]
-        if len(pos) > len(params):
+        if len(pos) > len(params) and not a.vararg:
             return Unknown(f"too many arguments for {fn.name}")
         env = {}
         if target.env is not None:
@@ -1284,11 +1401,19 @@ class Interp(AutoEvaluator):
         bound = {}
         for p_, v in zip(params, pos):
             bound[p_] = v
+        if a.vararg:
+            bound[a.vararg.arg] = tuple(pos[len(params):])                          # def f(x, *rest)
         kwonly = [x.arg for x in a.kwonlyargs]
+        extra = {}
         for k, v in kws.items():
             if k not in params and k not in kwonly:
-                return Unknown(f"unexpected keyword {k} for {fn.name}")
-            bound[k] = v
+                if not a.kwarg:
+                    return Unknown(f"unexpected keyword {k} for {fn.name}")
+                extra[k] = v
+            else:
+                bound[k] = v
+        if a.kwarg:
+            bound[a.kwarg.arg] = Rec("dict", extra)
         saved = (self.env, self.returns, self.done, self.maybe_returns, self.raised)
         dflt = dict(zip(params[::-1], (a.defaults or [])[::-1]))
         dflt.update({p_: d for p_, d in zip(kwonly, a.kw_defaults) if d is not None})
@@ -1332,6 +1457,9 @@ class Interp(AutoEvaluator):
         if isinstance(st, ast.Expr):
             if isinstance(st.value, ast.Call):
                 self.ev(st.value)
+            return
+        if isinstance(st, ast.Assign) and len(st.targets) == 1 and isinstance(st.targets[0], ast.Name) and _empty_list(st.value):
+            self.env[st.targets[0].id] = Lst(tuple(self.loop_stack))        # `acc = []`: a list to be filled by append
             return
         if isinstance(st, ast.Return):
             v = self.ev(st.value) if st.value is not None else None
